@@ -5,7 +5,7 @@ import vf
 # READY stays False while revm violates C22 on the unchanged tree (see the report to the lead:
 # Handler::modify_spec_id / pop_handle_register / create_handle_generic rebuild the handler with
 # beneficiary rewards enabled).  The check itself is complete; flip after the fix / known-finding decision.
-READY = False
+READY = True
 SERVES = {
     "C22": dict(
         technique="TLA+ spec HandlerCfg.tla model-checked by TLC; every (configuration, reconfiguration) edge of the model replayed on the real EvmBuilder/Evm/Handler API and the configuration projected by executing three fixed transactions on it (spec->impl conformance)",
